@@ -115,7 +115,7 @@ func judgeC05(c *Cfg, sc *scen.Scenario, ref []string, o *scen.Outcome, record b
 // report the context's error.
 func runC05TripAtCheck(c *Cfg) {
 	r := c.Rep
-	n := c.Pick(200, 3000)
+	n := c.Pick(200, 20000)
 	parallel(c, n, func(i int) {
 		rg := c.Rng("c05trip", i)
 		kinds := []int{scen.KBase, scen.KBaseFB, scen.KPlainRetry, scen.KPlainRetryFB, scen.KFnOptRes, scen.KFnOptAny, scen.KFnBldRes, scen.KFnBldAny, scen.KFnMixed}
@@ -154,7 +154,7 @@ func runC05TripAtCheck(c *Cfg) {
 func runC05(c *Cfg) {
 	r := c.Rep
 	defer runC05TripAtCheck(c)
-	nb := c.Pick(2000, 30000)
+	nb := c.Pick(2000, 150000)
 	parallel(c, nb, func(i int) {
 		rg := c.Rng("c05", i)
 		base := scen.GenFlowScenario(rg, scen.GenOpts{MaxNodes: 8, MaxActions: 4, MaxDepth: 4, Failures: true, MaxVisits: 3, Batch: true, CtxAwareErrs: true})
